@@ -173,6 +173,29 @@ fn wake_cell(kind: Kind, fill_mode: usize, burst: usize, raw: bool, e: &mut Emit
     e.line("done");
 }
 
+/// The iterator's own self-pipe: a burst far longer than its buffer, nobody draining.
+fn iterator_burst(n: usize, e: &mut Emit) {
+    counters::install();
+    let mut s = signal_hook::iterator::Signals::new(&[SIG]).unwrap();
+    for k in 0..n {
+        unsafe {
+            libc::raise(SIG);
+        }
+        if k % 500 == 0 {
+            e.line(&format!("delivered {}", k));
+        }
+    }
+    e.line(&format!("wakes={}", counters::wakes()));
+    let got: Vec<i32> = s.pending().collect();
+    e.line(&format!("pending={:?}", got));
+    unsafe {
+        libc::raise(SIG);
+    }
+    let got2: Vec<i32> = s.wait().collect();
+    e.line(&format!("wait_after_drain={:?}", got2));
+    e.line("done");
+}
+
 /// Ownership histories. `variant`: which history.
 fn own_cell(kind: Kind, variant: usize, e: &mut Emit) {
     counters::install();
@@ -256,6 +279,7 @@ pub fn run(tier: Tier) -> BResult {
     enum Cell {
         Wake(Kind, usize, usize, bool),
         Own(Kind, usize),
+        IterBurst(usize),
     }
     let mut cells: Vec<Cell> = Vec::new();
     for &k in &kinds {
@@ -270,10 +294,14 @@ pub fn run(tier: Tier) -> BResult {
             cells.push(Cell::Own(k, v));
         }
     }
+    for n in [1usize, 300, 3000] {
+        cells.push(Cell::IterBurst(n));
+    }
     let cells2 = cells.clone();
     let probes = run_cells(cells.len(), 12, Duration::from_secs(4), move |i, e| match &cells2[i] {
         Cell::Wake(k, f, b, raw) => wake_cell(*k, *f, *b, *raw, e),
         Cell::Own(k, v) => own_cell(*k, *v, e),
+        Cell::IterBurst(n) => iterator_burst(*n, e),
     });
     let mut violations = Vec::new();
     let mut samples = Vec::new();
@@ -315,6 +343,21 @@ pub fn run(tier: Tier) -> BResult {
                     } else if p.find("closed_after_unregister=") != Some("1") {
                         bad = Some("descriptor still open after the action was removed".into());
                     }
+                }
+            }
+            Cell::IterBurst(n) => {
+                transitions += *n as u64 + 3;
+                case = json!({"kind": "iterator self-pipe (Signals)", "burst": n});
+                *classes.entry("iterator self-pipe burst".into()).or_insert(0) += 1;
+                distinct.insert(format!("iterburst{}", n));
+                if p.fate == Fate::TimedOut {
+                    bad = Some(format!("a delivery did not return: the wake into the iterator's own self-pipe blocked (last progress: {:?})", p.all("delivered ").last()));
+                } else if p.fate != Fate::Exited(0) || !p.has("done") {
+                    bad = Some(format!("child {}: {:?}", p.fate.describe(), p.lines.last()));
+                } else if p.find("wakes=") != Some(&n.to_string()) {
+                    bad = Some(format!("{} deliveries made {} wake attempts", n, p.find("wakes=").unwrap_or("")));
+                } else if p.find("pending=") != Some("[10]") || p.find("wait_after_drain=") != Some("[10]") {
+                    bad = Some(format!("after the burst pending() gave {} and, after one more delivery, wait() gave {}", p.find("pending=").unwrap_or(""), p.find("wait_after_drain=").unwrap_or("")));
                 }
             }
             Cell::Own(k, v) => {
